@@ -344,6 +344,12 @@ class EvolvableCNN(EvolvableModule):
                             :min_0, :min_1
                         ]
 
+        # Buffers (e.g. BatchNorm running statistics) also determine the function computed
+        old_buffers = dict(old_net.named_buffers())
+        for key, buffer in new_net.named_buffers():
+            if key in old_buffers and old_buffers[key].size() == buffer.size():
+                buffer.data = old_buffers[key].data
+
         return new_net
 
     def init_weights_gaussian(self, std_coeff: float = 4) -> None:
